@@ -408,6 +408,28 @@ class Executor(Exec):
                 return None
             if rname in ("logging", "logger", "log", "_logger"):
                 return None
+        # super().method(...): the method of the next class in the (single-inheritance) base chain, on the current receiver
+        if isinstance(node.func, ast.Attribute) and isinstance(node.func.value, ast.Call) and isinstance(node.func.value.func, ast.Name) \
+                and node.func.value.func.id == "super" and not node.func.value.args and self.fsrc.cls:
+            fnode_cur = self.fsrc.node
+            recv_name = fnode_cur.args.args[0].arg if fnode_cur.args.args else None
+            recv_obj = env.lookup(recv_name) if recv_name and env.has(recv_name) else None
+            info = source.class_table().get(self.fsrc.cls)
+            target = None
+            for b in (info.bases if info else []):
+                found = source.find_method(b, node.func.attr)
+                if found:
+                    target = found
+                    break
+            s_args = [self.eval(a, env) for a in node.args]
+            s_kwargs = {k.arg: self.eval(k.value, env) for k in node.keywords if k.arg}
+            if target is None:
+                if node.func.attr == "__init__":
+                    return None  # object.__init__
+                raise OutOfSubset(f"super().{node.func.attr} not found in the repository classes")
+            if recv_obj is None:
+                raise OutOfSubset("super() outside a method")
+            return self.call_method_inline(recv_obj, target[0], target[1], s_args, s_kwargs)
         fn = self.eval(node.func, env)
         args = []
         for a in node.args:
